@@ -8,7 +8,7 @@ Model of PrimAITE's observation layer (game/agent/observations/*.py, game/agent/
   (`nmne_*_last_step`, `cached_obs`), with three functions each, written side by side like the source:
   `…Val` = value returned by `observe(state)`, `…Next` = the object after that call, `…Space` = `space`,
   `…Default` = `default_observation`.
-* Where Python raises (KeyError on an unknown ACL address, on a missing ACL slot, on a missing `nmne` / user-session
+* Where Python raises (KeyError on a missing ACL slot, on a missing `nmne` / user-session
   entry, ZeroDivisionError on speed 0) the value is `Val.raised`, which no space contains.
 
 Core Lean only.
@@ -510,14 +510,8 @@ def AclObs.ruleSpace (o : AclObs) : Space :=
 def AclObs.space (o : AclObs) : Space :=
   .dict ((rangeFrom 0 o.numRules).map (fun i => (Key.n i, o.ruleSpace)))
 
-/-- `1 if ip is None else self.ip_to_id[ip]` (KeyError → raised) -/
-def ipId (ips : List String) : Option String → Val
-  | none => .int 1
-  | some ip => match idOf ips ip with
-    | some i => .int i
-    | none => .raised
-
-/-- `self.x_to_id.get(v, 1)` (`None` is never a key) -/
+/-- `self.x_to_id.get(v, 1)` (`None` is never a key); addresses use `1 if ip is None else self.ip_to_id.get(ip, 1)`, the same
+function (a value outside its configured list reads as 1) -/
 def getId {α} [DecidableEq α] (l : List α) : Option α → Val
   | none => .int 1
   | some v => match idOf l v with
@@ -528,8 +522,8 @@ def AclObs.ruleVal (o : AclObs) (i : Nat) : Option (Option RuleState) → Val
   | none => .raised                       -- `acl_items[i]` KeyError
   | some none => aclEmptyRule i
   | some (some r) =>
-    .dict (aclRuleDict (.int i) (.int r.action) (ipId o.ips r.srcIp) (getId o.wcs r.srcWc) (getId o.ports r.srcPort)
-      (ipId o.ips r.dstIp) (getId o.wcs r.dstWc) (getId o.ports r.dstPort) (getId o.protos r.proto))
+    .dict (aclRuleDict (.int i) (.int r.action) (getId o.ips r.srcIp) (getId o.wcs r.srcWc) (getId o.ports r.srcPort)
+      (getId o.ips r.dstIp) (getId o.wcs r.dstWc) (getId o.ports r.dstPort) (getId o.protos r.proto))
 
 def AclObs.find (o : AclObs) (st : SimState) : Option (List (Option RuleState)) :=
   match o.wh with
